@@ -32,7 +32,7 @@ structure Acct where
   bal : Int := 0
   voteFor : Nat := 0            -- 0 = nobody
   votes : Int := 0
-  isCand : Nat := 0             -- profile[isCandidate]: 0 = absent/"", 1 = "true", 2 = "false"
+  isCand : Nat := 0             -- profile[isCandidate]: 0 = absent/"", 1 = "true", 2 = "false", 3 = any other string (the code never validates the flag)
   deposit : Option Int := none  -- profile[depositAmount]; none = absent/""
   income : Nat := 0             -- profile[incomeAddress]; 0 = absent
   isDeputy : Bool := false      -- its node id is a deputy of the current term (IsNodeDeputy)
@@ -42,8 +42,13 @@ structure Acct where
 inductive Kind where
   | transfer (to : Nat) (value : Int)
   | vote (cand : Nat)
-  | register (amount : Int) (unreg : Bool) (income : Nat)
-  | setSigners (target : Nat) (signers : List (Nat × Nat))   -- ModifySignersTx with from = to
+  /-- RegisterTx. `flag` = profile[isCandidate] of the tx data: 1 = "true" or key absent (buildProfile's default),
+      2 = "false", 0 = "" (key present, empty), 3 = any other string. `income` = 0: key absent (buildProfile puts
+      tx.From). `nodeDep`: is the node id named in the tx a deputy at this height (fact; matters on a first registration) -/
+  | register (amount : Int) (flag : Nat) (income : Nat) (nodeDep : Bool := false)
+  /-- ModifySignersTx. `tempOk` = `verifyTempAddress(from, to)` passes (to is a temp address built from `from`'s
+      last 9 bytes) — a fact about the two addresses' bytes, computed by the harness -/
+  | setSigners (target : Nat) (signers : List (Nat × Nat)) (tempOk : Bool := false)
   | box
   | other                 -- any tx type the ledger does not model: rejected by the driver
 
@@ -72,6 +77,7 @@ inductive Err where
   | insufficientForGas | gasLimitReached | outOfGas | txType
   | insufficientBalance | notCandidate | alreadyVoted | registerAgain | depositTooSmall
   | depositMissing | boxInBox | signerWeight | signerRepeat | signerCount | tempAddress
+  | isCandidate | repeatSetTemp
   deriving Repr, DecidableEq
 
 def Err.name : Err → String
@@ -83,7 +89,7 @@ def Err.name : Err → String
   | .registerAgain => "ErrRegisterAgain" | .depositTooSmall => "ErrInsufficientDepositAmount"
   | .depositMissing => "ErrFailedGetDepositBalacne" | .boxInBox => "BoxInBox"
   | .signerWeight => "ErrWeight" | .signerRepeat => "ErrAddressRepeat" | .signerCount => "ErrSignersNumber"
-  | .tempAddress => "ErrTempAddress"
+  | .tempAddress => "ErrTempAddress" | .isCandidate => "ErrIsCandidate" | .repeatSetTemp => "ErrRepeatSetTempAddress"
 
 /-! ### authorisation (C06) -/
 
@@ -188,7 +194,8 @@ structure Ctx where
 
 def doVote (c : Ctx) (s : St) (voter cand : Nat) (initialBal : Int) : Except Err St :=
   let ca := s.accts cand
-  if ca.isCand ≠ 1 then .error .notCandidate
+  -- CallVoteTx refuses absent / "" / "false"; ANY other flag value is accepted as a candidate
+  if ca.isCand = 0 ∨ ca.isCand = 2 then .error .notCandidate
   else if (s.accts voter).voteFor = cand then .error .alreadyVoted
   else
     let ex := initialBal / c.p.voteRate
@@ -210,19 +217,24 @@ def refund (c : Ctx) (s : St) (cand : Nat) : St :=
     let s := setBal s cand ((s.accts cand).bal + d)
     modAcct s cand (fun a => { a with deposit := none })
 
-def doRegister (c : Ctx) (s : St) (from' : Nat) (amount : Int) (unreg : Bool) (income : Nat) : Except Err St :=
+/-- `RegisterOrUpdateToCandidate`. The flag of the tx data is never validated: a FIRST registration stores it as it is
+    (so `"false"` registers an "unregistered candidate" WITH deposit votes, `""` leaves the account in the
+    "never registered" state with a deposit and votes — it can register again, the first deposit stays in the pool),
+    and a modification copies it over the stored flag. -/
+def doRegister (c : Ctx) (s : St) (from' : Nat) (amount : Int) (flag : Nat) (income : Nat) (nodeDep : Bool := false) : Except Err St :=
   let a := s.accts from'
+  let inc := if income = 0 then from' else income
   if a.isCand = 0 then
     -- registerCandidate
     if amount < c.p.minDeposit then .error .depositTooSmall
     else if a.bal < amount then .error .insufficientBalance
     else
-      let isC := if unreg then 2 else 1
-      let s := modAcct s from' (fun a => { a with isCand := isC, deposit := some amount, income := income })
+      let s := modAcct s from' (fun a => { a with isCand := flag, deposit := some amount, income := inc, isDeputy := nodeDep })
       let s := transfer s from' c.p.pool amount
       .ok (modAcct s from' (fun a => { a with votes := amount / c.p.depositRate }))
   else if a.isCand = 2 then .error .registerAgain
-  else if unreg then
+  else if a.isCand ≠ 1 then .error .isCandidate
+  else if flag = 2 then
     -- unRegisterCandidate
     let s := modAcct s from' (fun a => { a with isCand := 2, votes := 0 })
     let num := c.height % c.p.termDuration
@@ -230,7 +242,7 @@ def doRegister (c : Ctx) (s : St) (from' : Nat) (amount : Int) (unreg : Bool) (i
     else if a.isDeputy then .ok s
     else .ok (refund c s from')
   else
-    -- modifyCandidateInfo
+    -- modifyCandidateInfo: every key of the tx profile except nodeID / deposit is copied, the flag included
     if amount > 0 then
       if a.bal < amount then .error .insufficientBalance
       else
@@ -240,17 +252,19 @@ def doRegister (c : Ctx) (s : St) (from' : Nat) (amount : Int) (unreg : Bool) (i
         | some old =>
           let nw := old + amount
           let add := nw / c.p.depositRate - old / c.p.depositRate
-          .ok (modAcct s from' (fun x => { x with deposit := some nw, income := income,
+          .ok (modAcct s from' (fun x => { x with isCand := flag, deposit := some nw, income := inc,
                                                   votes := (if add > 0 then x.votes + add else x.votes) }))
-    else .ok (modAcct s from' (fun a => { a with income := income }))
+    else .ok (modAcct s from' (fun a => { a with isCand := flag, income := inc }))
 
-/-- `ModifyMultisigTx` (from = to): weights in 1..100, addresses distinct, at most 100 signers, total ≥ 100;
+/-- `ModifyMultisigTx`: weights in 1..100, addresses distinct, at most 100 signers; with from ≠ to the target must be
+    a temp address built from the sender (`verifyTempAddress`, fact `tempOk`) that has no signers yet; total ≥ 100;
     the stored list is sorted by address (`sort.Sort(signers)`) — the order is irrelevant to `weightOf`. -/
-def doSetSigners (s : St) (from' target : Nat) (l : List (Nat × Nat)) : Except Err St :=
+def doSetSigners (s : St) (from' target : Nat) (l : List (Nat × Nat)) (tempOk : Bool := false) : Except Err St :=
   if l.length > 100 then .error .signerCount
   else if l.any (fun x => x.2 < 1 ∨ x.2 > 100) then .error .signerWeight
   else if (distinct (l.map (·.1))).length ≠ l.length then .error .signerRepeat
-  else if from' ≠ target then .error .tempAddress
+  else if from' ≠ target ∧ tempOk = false then .error .tempAddress
+  else if from' ≠ target ∧ (s.accts target).signers ≠ [] then .error .repeatSetTemp
   else if sumNat (l.map (·.2)) < 100 then .error .totalWeight
   else .ok (modAcct s target (fun a => { a with signers := l }))
 
@@ -261,8 +275,8 @@ def body (c : Ctx) (s : St) (tx : Tx) (initialBal : Int) : Except Err St :=
     if (s.accts tx.sender).bal < v then .error .insufficientBalance
     else if v = 0 then .ok s else .ok (transfer s tx.sender to v)
   | .vote cand => doVote c s tx.sender cand initialBal
-  | .register amt unreg inc => doRegister c s tx.sender amt unreg inc
-  | .setSigners tg l => doSetSigners s tx.sender tg l
+  | .register amt flag inc nd => doRegister c s tx.sender amt flag inc nd
+  | .setSigners tg l tok => doSetSigners s tx.sender tg l tok
   | .box => .error .boxInBox
   | .other => .error .txType
 
